@@ -2,8 +2,8 @@ SPECIFICATION Spec
 CONSTANTS
   MaxN = 4
   FullN = 0
-  TypedN = 4
-  ClassNs = {}
+  TypedN = 0
+  ClassNs = {4}
   MonoNs = {}
   PermAllN = 0
 CHECK_DEADLOCK FALSE
